@@ -1,10 +1,14 @@
 /-
 Driver/C10 — runs the executable models of the in-memory and on-disk caches on protocol lines.
 
-  begin mem max=<n> bytes=<n>|none policy=lru|lfu|fifo|random|ttl dttl=long|short
+  begin mem|memc max=<n> bytes=<n>|none policy=lru|lfu|fifo|random|ttl dttl=long|short
   begin disk dttl=long|short
   put <key> <hex> ev=auto|-|k1,k2,…        putttl <key> <hex> long|short ev=…
   get <key>   contains <key>   remove <key>   clear   size   stats   reopen (disk only)
+  cleanup (memc only: one tick of the task `new_with_cleanup` spawns)
+  validate mem <max> <bytes|none> <cleanup_zero 0|1>
+  validate disk <max_files> <bytes|none> <cleanup_zero> <sync_zero> <use_subdirs> <levels>
+`stats` answers `<entries> <bytes> <get_count> <hit_count> <miss_count>` (Model/CacheExt).
 
 `ev=` on a put names the victims the implementation chose where the choice is not determined
 (Lfu ties, Random); the model checks the choice is one the policy allows (`victimsOk`) and
@@ -14,13 +18,16 @@ with distinct time stamps; Ttl policy; no eviction).  The disk cache ignores `ev
 import Driver.Common
 import Cascette.Model.MemCache
 import Cascette.Model.DiskCache
+import Cascette.Model.CacheExt
 open Cascette Drv
 open Cascette.Model
+open Cascette.Model.CacheExt
 
 inductive St where
   | none
-  | mem (cfg : MemCache.Config) (s : MemCache.State)
-  | disk (cfg : DiskCache.Config) (s : DiskCache.State)
+  /-- `task`: created by `new_with_cleanup` -/
+  | mem (cfg : MemCache.Config) (x : Mem.XState) (task : Bool)
+  | disk (cfg : DiskCache.Config) (x : Disk.XState)
 
 def kv (pre : String) (t : String) : Option String :=
   if t.startsWith pre then some (t.drop pre.length).toString else none
@@ -47,84 +54,100 @@ def parseEv (t : String) : Option (Option (List Nat)) :=
 
 def showVal (v : List Nat) : String := hexOfNats v
 
-def memPut (cfg : MemCache.Config) (s : MemCache.State) (k : Nat) (v : List Nat) (short : Bool)
+def memPut (cfg : MemCache.Config) (x : Mem.XState) (task : Bool) (k : Nat) (v : List Nat) (short : Bool)
     (ev : Option (List Nat)) : St × String :=
-  let s1 := MemCache.tick s
-  let vs := match ev with
-    | some l => l
-    | none => MemCache.detVictims cfg.policy s1.store (MemCache.evictN cfg s1)
-  let op := MemCache.Op.putTtl k v short vs
-  if MemCache.opOk cfg s op then
-    (.mem cfg (MemCache.step cfg s op).1, "ok")
-  else (.mem cfg s, "bad-choice")
+  match ev with
+  | none =>
+    -- the caller-level operation: victims filled in by `Mem.elabOp` (= `detVictims`); allowed by
+    -- theorem `mem_auto_victims_allowed`, so no check is needed here
+    (.mem cfg (Mem.astep cfg x (.putTtl k v short)).1 task, "ok")
+  | some vs =>
+    let op := MemCache.Op.putTtl k v short vs
+    if MemCache.opOk cfg x.s op then
+      (.mem cfg (Mem.xstep cfg x (.base op)).1 task, "ok")
+    else (.mem cfg x task, "bad-choice")
+
+def parseBytes (b : String) : Option (Option Nat) :=
+  if b == "none" then some none else b.toNat?.map some
+
+def parseFlag : String → Option Bool
+  | "0" => some false | "1" => some true | _ => none
+
+def showStats (n b : Int) (g h : Nat) (m : Int) : String :=
+  toString n ++ " " ++ toString b ++ " " ++ toString g ++ " " ++ toString h ++ " " ++ toString m
 
 def handle (st : St) (toks : List String) : St × String :=
   match toks with
-  | ["begin", "mem", mx, by_, pol, dt] =>
+  | ["begin", m, mx, by_, pol, dt] =>
+    if m != "mem" && m != "memc" then (st, "bad-op") else
     match (kv "max=" mx).bind (·.toNat?), kv "bytes=" by_, (kv "policy=" pol).bind parsePolicy,
           (kv "dttl=" dt).bind parseClass with
     | some mx, some b, some pol, some dt =>
-      let mb : Option (Option Nat) := if b == "none" then some none else b.toNat?.map some
-      match mb with
+      match parseBytes b with
       | some mb =>
-        if mx = 0 ∨ mb = some 0 then (.none, "err:config") else
-        (.mem { maxEntries := mx, maxBytes := mb, policy := pol, defaultShort := dt } MemCache.init, "ok")
+        -- the harness always configures a non-zero cleanup_interval
+        if !Mem.validate mx mb false then (.none, "err:config") else
+        (.mem { maxEntries := mx, maxBytes := mb, policy := pol, defaultShort := dt } Mem.xinit (m == "memc"), "ok")
       | none => (st, "bad-op")
     | _, _, _, _ => (st, "bad-op")
   | ["begin", "disk", dt] =>
     match (kv "dttl=" dt).bind parseClass with
-    | some dt => (.disk { defaultShort := dt } DiskCache.init, "ok")
+    | some dt => (.disk { defaultShort := dt } Disk.xinit, "ok")
     | none => (st, "bad-op")
+  | ["validate", "mem", mx, b, cz] =>
+    match mx.toNat?, parseBytes b, parseFlag cz with
+    | some mx, some mb, some cz => (st, if Mem.validate mx mb cz then "ok" else "err:config")
+    | _, _, _ => (st, "bad-op")
+  | ["validate", "disk", mf, b, cz, sz, sub, lv] =>
+    match mf.toNat?, parseBytes b, parseFlag cz, parseFlag sz, parseFlag sub, lv.toNat? with
+    | some mf, some mb, some cz, some sz, some sub, some lv =>
+      (st, if Disk.validate mf mb cz sz sub lv then "ok" else "err:config")
+    | _, _, _, _, _, _ => (st, "bad-op")
   | _ =>
   match st with
   | .none => (st, "bad-op")
-  | .mem cfg s =>
+  | .mem cfg x task =>
+    let base (op : MemCache.Op) : St × String :=
+      let (x', o) := Mem.xstep cfg x (.base op)
+      (.mem cfg x' task, match o with
+        | .base (.val (some v)) => "val " ++ showVal v
+        | .base (.val none) => "none"
+        | .base (.bool b) => if b then "true" else "false"
+        | .base (.num n) => toString n
+        | .base (.stats n b) => toString n ++ " " ++ toString b
+        | .base .unit => "ok"
+        | .stats n b g h m => showStats n b g h m
+        | .unit => "ok")
     match toks with
     | ["put", k, v, ev] =>
       match k.toNat?, parseHexNat v, parseEv ev with
-      | some k, some v, some ev => memPut cfg s k v cfg.defaultShort ev
+      | some k, some v, some ev => memPut cfg x task k v cfg.defaultShort ev
       | _, _, _ => (st, "bad-op")
     | ["putttl", k, v, c, ev] =>
       match k.toNat?, parseHexNat v, parseClass c, parseEv ev with
-      | some k, some v, some c, some ev => memPut cfg s k v c ev
+      | some k, some v, some c, some ev => memPut cfg x task k v c ev
       | _, _, _, _ => (st, "bad-op")
-    | ["get", k] =>
-      match k.toNat? with
-      | some k =>
-        let (s', o) := MemCache.step cfg s (.get k)
-        (.mem cfg s', match o with | .val (some v) => "val " ++ showVal v | _ => "none")
-      | none => (st, "bad-op")
-    | ["contains", k] =>
-      match k.toNat? with
-      | some k =>
-        let (s', o) := MemCache.step cfg s (.contains k)
-        (.mem cfg s', match o with | .bool true => "true" | _ => "false")
-      | none => (st, "bad-op")
-    | ["remove", k] =>
-      match k.toNat? with
-      | some k =>
-        let (s', o) := MemCache.step cfg s (.remove k)
-        (.mem cfg s', match o with | .bool true => "true" | _ => "false")
-      | none => (st, "bad-op")
-    | ["clear"] => (.mem cfg (MemCache.step cfg s .clear).1, "ok")
-    | ["size"] =>
-      let (s', o) := MemCache.step cfg s .size
-      (.mem cfg s', match o with | .num n => toString n | _ => "?")
-    | ["stats"] =>
-      let (s', o) := MemCache.step cfg s .stats
-      (.mem cfg s', match o with | .stats n b => toString n ++ " " ++ toString b | _ => "?")
+    | ["get", k] => match k.toNat? with | some k => base (.get k) | none => (st, "bad-op")
+    | ["contains", k] => match k.toNat? with | some k => base (.contains k) | none => (st, "bad-op")
+    | ["remove", k] => match k.toNat? with | some k => base (.remove k) | none => (st, "bad-op")
+    | ["clear"] => base .clear
+    | ["size"] => base .size
+    | ["stats"] => base .stats
+    | ["cleanup"] =>
+      if task then (.mem cfg (Mem.xstep cfg x .cleanup).1 task, "ok") else (st, "bad-op")
     | _ => (st, "bad-op")
-  | .disk cfg s =>
+  | .disk cfg x =>
     let go (op : DiskCache.Op) : St × String :=
-      let (s', o) := DiskCache.step cfg s op
-      (.disk cfg s', match o with
-        | .unit => "ok"
-        | .got .miss => "none"
-        | .got (.hit v) => "val " ++ showVal v
-        | .got .ioErr => "err:io"
-        | .bool b => if b then "true" else "false"
-        | .num n => toString n
-        | .stats n b => toString n ++ " " ++ toString b)
+      let (x', o) := Disk.xstep cfg x op
+      (.disk cfg x', match o with
+        | .base .unit => "ok"
+        | .base (.got .miss) => "none"
+        | .base (.got (.hit v)) => "val " ++ showVal v
+        | .base (.got .ioErr) => "err:io"
+        | .base (.bool b) => if b then "true" else "false"
+        | .base (.num n) => toString n
+        | .base (.stats n b) => toString n ++ " " ++ toString b
+        | .stats n b g h m => showStats n b g h m)
     match toks with
     | ["put", k, v, _ev] =>
       match k.toNat?, parseHexNat v with
